@@ -44,9 +44,9 @@ static const vector<uint8_t> ALPHA14 = {0x55, 0x31, 0xc6, 0xc8, 0xe8, 0xcc, 0xc0
 // bytes 80 81 90(16) 91(17) bf aa, plain 00 55 7f
 // frame mode (C14): whole items, so that sequences of several two-byte frames (three RECEIVED SYN while an
 // arbitration is outstanding, results and error frames between them ...) are inside the quick bound:
-// plain 55 | RECEIVED aa (SYN) | RECEIVED a9 | INFO 01 | STARTED 31 | FAILED 31 | ERROR_EBUS overrun |
-// RESETTED 01 | undefined command 4
-static const vector<vector<uint8_t>> FRAMES = {{0x55}, {0xc6, 0xaa}, {0xc6, 0xa9}, {0xcc, 0x81}, {0xc8, 0xb1}, {0xe8, 0xb1}, {0xec, 0x81}, {0xc0, 0x81}, {0xd0, 0x81}};
+// plain 55 | RECEIVED aa (SYN) | INFO 01 | STARTED 31 | FAILED 31 | ERROR_EBUS overrun | RESETTED 01 |
+// undefined command 4
+static const vector<vector<uint8_t>> FRAMES = {{0x55}, {0xc6, 0xaa}, {0xcc, 0x81}, {0xc8, 0xb1}, {0xe8, 0xb1}, {0xec, 0x81}, {0xc0, 0x81}, {0xd0, 0x81}};
 static const vector<uint8_t> ALPHA_WIDE = {0xc0, 0xc4, 0xc8, 0xcc, 0xd0, 0xd4, 0xd8, 0xdc, 0xe0, 0xe4, 0xe8, 0xec, 0xf0, 0xf4, 0xf8, 0xfc,
                                            0xcf, 0xff, 0x80, 0x81, 0x90, 0x91, 0xbf, 0xaa, 0x00, 0x55, 0x7f};
 
@@ -671,6 +671,7 @@ class Explorer {
       k.append(reinterpret_cast<const char*>(&o.closed), 1);
       k.push_back(static_cast<char>(o.closeSyms));
       k.push_back(static_cast<char>(o.closingSym & 0xff));
+      k.push_back(static_cast<char>(o.arbBad));
       k.push_back(static_cast<char>(o.nsyms));
       k.append(reinterpret_cast<const char*>(o.syms), o.nsyms * 2);
       k.push_back(static_cast<char>(o.narbs));
